@@ -1,5 +1,5 @@
 From Coq Require Import ZArith List.
-From PV Require Import Base.U64 C04.C04_Heap C11.C11_Model C11.C11_ProofsSafety C11.C11_ProofsResp C11.C11_Proofs.
+From PV Require Import Base.U64 C04.C04_Heap C11.C11_Model C11.C11_ProofsSafety C11.C11_ProofsResp C11.C11_ProofsIso C11.C11_Proofs.
 Import ListNotations.
 
 Theorem rpc_no_access_after_return :
@@ -25,6 +25,19 @@ Theorem rpc_own_response :
                          hdr_ok h (c_tag0 (s_ctx s t)) (length p) /\ r = Z.of_nat (length p).
 Proof. exact own_response_all. Qed.
 Print Assumptions rpc_own_response.
+
+Theorem rpc_failure_isolated :
+  forall calls script es s,
+    run_events (init true calls script) es = Some s ->
+    (forall e, In e (s_erases s) ->
+       match e_adopt e with
+       | None => e_tag e = c_tag0 (s_ctx s (e_by e))
+       | Some g => e_tag e = c_tag0 (s_ctx s g)
+       end) /\
+    (forall t g size need, reading_body (pcof s t) = Some (g, size, need) -> body_facts s g size need) /\
+    (forall t r p k, In (t, r, p) (rets (s_trace s)) -> ~ In (k, t) (s_map s)).
+Proof. exact failure_isolated_all. Qed.
+Print Assumptions rpc_failure_isolated.
 
 Theorem rpc_no_access_after_return_refuted :
   exists calls script es s,
